@@ -19,6 +19,7 @@ class Receive:
 
     def __attrs_post_init__(self):
         self._key = None
+        self._early = []  # messages that arrived before we knew the key
 
     def wire(self, boss, send):
         self._B = _interfaces.IBoss(boss)
@@ -45,7 +46,12 @@ class Receive:
         assert isinstance(side, str), type(phase)
         assert isinstance(phase, str), type(phase)
         assert isinstance(body, bytes), type(body)
-        assert self._key
+        if self._key is None:
+            # Order releases messages as soon as the peer's PAKE has arrived,
+            # but with input_code() that can be before our own code (and so
+            # the key) is known: hold them until got_key()
+            self._early.append((side, phase, body))
+            return
         data_key = derive_phase_key(self._key, side, phase)
         try:
             plaintext = decrypt_data(data_key, body)
@@ -72,6 +78,12 @@ class Receive:
         self._key = key
 
     @m.output()
+    def process_early_messages(self, key):
+        early, self._early = self._early, []
+        for (side, phase, body) in early:
+            self.got_message(side, phase, body)
+
+    @m.output()
     def S_got_verified_key(self, phase, plaintext):
         assert self._key
         self._S.got_verified_key(self._key)
@@ -94,7 +106,8 @@ class Receive:
     def W_scared(self):
         self._B.scared()
 
-    S0_unknown_key.upon(got_key, enter=S1_unverified_key, outputs=[record_key])
+    S0_unknown_key.upon(got_key, enter=S1_unverified_key,
+                        outputs=[record_key, process_early_messages])
     S1_unverified_key.upon(
         got_message_good,
         enter=S2_verified_key,
